@@ -84,8 +84,11 @@ def auto_partvars(fn):
     out = []
     tests = {}
     for n in ast.walk(fn):
-        if isinstance(n, ast.If) and isinstance(n.test, ast.Name):
-            tests[n.test.id] = tests.get(n.test.id, 0) + 1
+        if isinstance(n, (ast.If, ast.While, ast.IfExp)):
+            for x in ast.walk(n.test):
+                # the local itself as a truth value (`if b`, `if not b`, `if b and ...`), not as an operand
+                if isinstance(x, ast.Name):
+                    tests[x.id] = tests.get(x.id, 0) + 1
     for n in ast.walk(fn):
         if isinstance(n, ast.Assign) and len(n.targets) == 1:
             t, v = n.targets[0], n.value
@@ -129,9 +132,9 @@ _PREFETCH = None
 
 def _prefetch_worker(i):
     model, jobs = _PREFETCH
-    key, rel, owner, fn, ent, partvars, cfg = jobs[i]
+    key, rel, owner, fn, ent, partvars = jobs[i][:6]
     try:
-        it = model._run_job(fn, ent, partvars)
+        it = model._run_job(fn, ent, partvars, jobs[i][8])
         it.hooks = {}
         it.resolver = None
         return key, pickle.dumps(it, protocol=pickle.HIGHEST_PROTOCOL)
@@ -140,28 +143,35 @@ def _prefetch_worker(i):
 
 
 class GenRun:
-    def __init__(self, cname, rel, owner, fn, config, interp, entry):
+    def __init__(self, cname, rel, owner, fn, config, interp, entry, numcase=""):
         self.cname, self.rel, self.owner, self.fn = cname, rel, owner, fn
         self.config, self.interp, self.entry = config, interp, entry
+        self.numcase = numcase
 
     @property
     def construct(self):
         return f"{self.rel[:-3].replace('/', '.')}.{self.owner}.{self.fn.name}"
 
     def cfg_text(self):
-        if not self.config:
+        if not self.config and not self.numcase:
             return ""
-        return "{" + ", ".join(f"{k}={v}" for k, v in sorted(self.config.items())) + "}"
+        return "{" + ", ".join([f"{k}={v}" for k, v in sorted(self.config.items())] + ([self.numcase] if self.numcase else [])) + "}"
 
 
 class Model:
-    def __init__(self, repo):
+    def __init__(self, repo, deep=False):
         self.repo = repo
+        # deep (second cover of the thorough tier): every finite-domain attribute is split, and the integer
+        # configuration attributes the generator computes with are split at their boundary values
+        # (lowest, lowest + 1, the rest), one generator run per cell
+        self.deep = deep
         self._init_cache = {}
         self._run_cache = {}
         self._interp_cache = {}
         self._planner = None
         self._conv = None
+        # generator constructs whose analysis met something outside the modelled fragment: construct -> reasons
+        self.tainted = {}
 
     # ------------------------------------------------------------ classes
     def concrete_classes(self):
@@ -263,7 +273,7 @@ class Model:
                     st.enum_meet(p, "in", ["True", "False"])
         names = {n.id for n in ast.walk(fn) if isinstance(n, ast.Name) and n.id.split("@")[0] == "max_n"}
         pv = sorted(names) + list(partvars)
-        it = Interp(fn, entry=st, partvars=pv, finalize_havoc=False,
+        it = Interp(fn, entry=st, partvars=pv, finalize_havoc=False, klass=cname,
                     record_calls=("hrevolve", "disk_revolve", "periodic_disk_revolve", "revolve", "allocate_snapshots"))
         it.partvars = tuple(pv) + ("self._max_n",)
         it.none_part = tuple(pv)
@@ -363,34 +373,86 @@ class Model:
                 out["_convert_action"] = self._conv
         return out
 
+    def numeric_cases(self, cname, fn, entries):
+        """boundary cells of the integer configuration attributes the generator computes with:
+        list of (text, [(sym, op, const)])"""
+        arith = set()
+        for n in ast.walk(fn):
+            ops = []
+            if isinstance(n, ast.BinOp) and isinstance(n.op, (ast.Add, ast.Sub, ast.FloorDiv, ast.Mod)):
+                ops = [n.left, n.right]
+            elif isinstance(n, ast.Compare) and any(isinstance(o, (ast.Lt, ast.LtE, ast.Gt, ast.GtE)) for o in n.ops):
+                ops = [n.left] + list(n.comparators)
+            elif isinstance(n, ast.Call) and isinstance(n.func, ast.Name) and n.func.id not in (
+                    "Forward", "Reverse", "Copy", "Move", "EndForward", "EndReverse", "len", "iter", "enumerate", "isinstance"):
+                ops = list(n.args)
+            for x in ops:
+                if isinstance(x, ast.Attribute) and isinstance(x.value, ast.Name) and x.value.id == "self":
+                    arith.add(x.attr)
+        arith -= {"_n", "_r"}
+        dims = []
+        for a in sorted(arith):
+            s = "self." + a
+            los = [e.lower_bound(Lin.sym(s)) for e in entries if e.enum_is(s, "None") != "yes"]
+            if not los:
+                continue
+            if any((e.enum_get(s) or ("", ()))[0] == "in" and set(e.enum_get(s)[1]) - {"None"} for e in entries):
+                continue      # a token-valued attribute (storage, flag), split with the finite domains
+            if all(l is not None for l in los):
+                lo = min(los)
+                dims.append([(f"{a}={lo}", (s, "==", lo)), (f"{a}={lo + 1}", (s, "==", lo + 1)), (f"{a}>={lo + 2}", (s, ">=", lo + 2))])
+            else:
+                dims.append([(f"{a}<=0", (s, "<=", 0)), (f"{a}=1", (s, "==", 1)), (f"{a}>=2", (s, ">=", 2))])
+        cases = [("", [])]
+        for d in dims[:3]:
+            cases = [((t + ", " + t2) if t else t2, c + [c2]) for t, c in cases for t2, c2 in d]
+        return cases
+
     def _jobs(self, cname, split_all):
-        """(key, fn, entries, partvars, cfg) for every generator run the class needs"""
+        """(key, rel, owner, fn, entries, partvars, cfg, numcase) for every generator run the class needs"""
         rel, owner, fn = self.generator(cname)
         entries, _ = self.init_facts(cname)
         pv, hooks = self.hooks_for(fn)
         jobs = []
-        for cfg in self.configs(cname, fn, split_all):
-            ent = []
-            for e in entries:
-                e = e.copy()
-                for s, v in cfg.items():
-                    e.enum_meet(s, "in", [v])
-                e.add_ineq(Lin.sym("sys.maxsize") - ONE)
-                if not e.bottom:
-                    ent.append(e)
-            if not ent:
-                continue
-            # classes sharing one generator (the Revolve family) with the same facts about the
-            # attributes it reads are analysed once
-            reads = {n.attr for n in ast.walk(fn) if isinstance(n, ast.Attribute)
-                     and isinstance(n.value, ast.Name) and n.value.id == "self"}
-            key = (rel, owner.name, tuple(sorted(cfg.items())), tuple(sorted(self._freeze(e, reads) for e in ent)))
-            jobs.append((key, rel, owner, fn, ent, pv + tuple(cfg), cfg))
+        ncases = self.numeric_cases(cname, fn, entries) if self.deep else [("", [])]
+        reads = {n.attr for n in ast.walk(fn) if isinstance(n, ast.Attribute)
+                 and isinstance(n.value, ast.Name) and n.value.id == "self"}
+        for cfg in self.configs(cname, fn, split_all or self.deep):
+            for ntext, ncons in ncases:
+                ent = []
+                for e in entries:
+                    e = e.copy()
+                    for s, v in cfg.items():
+                        e.enum_meet(s, "in", [v])
+                    e.add_ineq(Lin.sym("sys.maxsize") - ONE)
+                    last = True
+                    for s, op, c in ncons:
+                        if e.enum_is(s, "None") == "yes":
+                            # not an integer in this entry (online schedule before finalize): the entry belongs
+                            # to the open-ended cell only
+                            if op != ">=":
+                                e.bottom = True
+                            continue
+                        x = Lin.sym(s) - Lin.const(c)
+                        if op == "==":
+                            e.add_eq(x)
+                        elif op == ">=":
+                            e.add_ineq(x)
+                        else:
+                            e.add_ineq(-x)
+                    if not e.bottom and not (ncons and e.infeasible()):
+                        ent.append(e)
+                if not ent:
+                    continue
+                # classes sharing one generator (the Revolve family) with the same facts about the
+                # attributes it reads are analysed once
+                key = (rel, owner.name, tuple(sorted(cfg.items())), tuple(sorted(self._freeze(e, reads) for e in ent)))
+                jobs.append((key, rel, owner, fn, ent, pv + tuple(cfg), cfg, ntext, cname))
         return jobs
 
-    def _run_job(self, fn, ent, partvars):
+    def _run_job(self, fn, ent, partvars, klass=None):
         pv, hooks = self.hooks_for(fn)
-        it = Interp(fn, entry=ent, partvars=partvars, hooks=hooks)
+        it = Interp(fn, entry=ent, partvars=partvars, hooks=hooks, klass=klass)
         it.summaries = self.summaries_for(fn)
         it.run()
         return it
@@ -416,7 +478,7 @@ class Model:
         global _PREFETCH
         _PREFETCH = (self, jobs)
         try:
-            with ctx.Pool(min(len(jobs), os.cpu_count() or 2, 8)) as pool:
+            with ctx.Pool(min(len(jobs), os.cpu_count() or 2, 16 if self.deep else 8)) as pool:
                 for key, blob in pool.imap_unordered(_prefetch_worker, range(len(jobs))):
                     if blob is not None:
                         it = pickle.loads(blob)
@@ -432,15 +494,29 @@ class Model:
         if (cname, split_all) in self._run_cache:
             return self._run_cache[(cname, split_all)]
         out = []
-        for key, rel, owner, fn, ent, partvars, cfg in self._jobs(cname, split_all):
+        if self.deep:
+            self.prefetch([cname], split_all)
+        for key, rel, owner, fn, ent, partvars, cfg, ntext, _ in self._jobs(cname, split_all):
             it = self._interp_cache.get(key)
             if it is None:
-                it = self._run_job(fn, ent, partvars)
+                it = self._run_job(fn, ent, partvars, cname)
                 self._interp_cache[key] = it
             # the interpreter owns the syntax tree its records point into
-            out.append(GenRun(cname, rel, owner.name, it.fn, cfg, it, ent))
+            g = GenRun(cname, rel, owner.name, it.fn, cfg, it, ent, ntext)
+            if getattr(it, "fuzzy", None):
+                self.tainted.setdefault(g.construct, [])
+                for item in it.fuzzy:
+                    if item not in self.tainted[g.construct]:
+                        self.tainted[g.construct].append(item)
+            out.append(g)
         self._run_cache[(cname, split_all)] = out
         return out
+
+    def used_generators(self):
+        return bool(self._interp_cache)
+
+    def cell_count(self):
+        return len(self._interp_cache)
 
     @staticmethod
     def _freeze(st, reads):
